@@ -16,8 +16,11 @@
 (*  nraw       one record written by the harness through Decode and back    *)
 (*             through Encode                                               *)
 (*  macbyte / macrune / macstr   mac.Decode, mac.DecodeOne, mac.Encode      *)
-(*  post       a glyph-name list through post.Info.Encode (bytes walked),   *)
+(*  post       a glyph-name list (fresh, or the slice an earlier post.Read     *)
+(*             returned, re-sliced, appended to: histories generated from    *)
+(*             NameCodec.tla part "posth") through post.Info.Encode (walked),*)
 (*             post.Read and golang.org/x/image GlyphName on a whole font   *)
+(*  postread   post.Read of the table written last inside such a history      *)
 (*  tagscript  a ScriptList written by the harness through gtab.Read and    *)
 (*             gtab.Info.Encode (ScriptList walked)                         *)
 (*  tagback    a BCP 47 tag without private-use part through Encode, several *)
@@ -193,6 +196,11 @@ PostOK ==
 
 Post == Is("post") /\ Judge(PostOK) /\ UNCHANGED <<langs, info>> /\ Consume
 
+\* post.Read of a table written earlier in a history (NameCodec.tla, part "posth"): what Read
+\* returns is what that Encode was given, whatever happened to earlier results of Read since
+PostReadOK == ~E.readfail /\ E.dec = (IF E.nil THEN <<>> ELSE E.names)
+PostReadEv == Is("postread") /\ Judge(PostReadOK) /\ UNCHANGED <<langs, info>> /\ Consume
+
 ---------------------------------------------------------------------------
 (* script / language tags *)
 
@@ -212,7 +220,7 @@ TagBackOK ==
 
 TagBack == Is("tagback") /\ Judge(TagBackOK) /\ UNCHANGED <<langs, info>> /\ Consume
 
-Next == LangTable \/ NReset \/ NEncode \/ NDecode \/ NRaw \/ MacByte \/ MacRune \/ MacStr \/ Post
+Next == LangTable \/ NReset \/ NEncode \/ NDecode \/ NRaw \/ MacByte \/ MacRune \/ MacStr \/ Post \/ PostReadEv
         \/ TagScript \/ TagBack
 Spec == Init /\ [][Next]_vars
 
